@@ -8,6 +8,8 @@ among gets (FilterStore getters exempt), head-of-queue-unsatisfiable check at ev
 Items are harness objects with a deliberately coarse __eq__ (equal-but-distinct), so identity vs
 equality matters.
 """
+import collections
+
 from vlib import kern
 
 PID = "C07"
@@ -58,6 +60,23 @@ class Item:
 
     def __repr__(self):
         return f"Item(k={self.key},u={self.uid})"
+
+
+def U(x):
+    """uid of a stored object: an Item, or a library PriorityItem(priority, payload) whose payload is a dict"""
+    return x.uid if isinstance(x, Item) else x.item["uid"]
+
+
+def is_item(x):
+    return isinstance(x, Item) or (hasattr(x, "priority") and hasattr(x, "item") and isinstance(x.item, dict) and "uid" in x.item)
+
+
+def LT(a, b):
+    """must `a` leave a PriorityStore before `b`?  Items order by key; PriorityItems by priority only (their
+    payloads are not orderable and play no role)"""
+    if isinstance(a, Item):
+        return a < b
+    return a.priority < b.priority
 
 
 FILTERS = ["any", "key1", "key2", "key3", "odd", "mod3", "mod3", "never"]
@@ -113,11 +132,12 @@ def gen_case(rng):
                 "filter": rng.choice(FILTERS) if rng.random() < 0.8 else "any",
                 "patience": rng.choice([None, None, 0, 1, 2, 3]),
                 "form": rng.choice(["plain", "with"]),
+                "reput": kind in ("Store", "FilterStore") and rng.random() < 0.12,
             })
         procs.append(its)
     pokes = [[rng.choice([0.5, 1, 2, 3, 4, 5]), rng.randrange(nproc)] for _ in range(rng.randint(0, 4))]
     return {"kind": kind, "capacity": "inf" if cap == INF else cap, "init": init, "procs": procs, "pokes": sorted(pokes),
-            "float_amounts": amounts[0] == 0.5}
+            "float_amounts": amounts[0] == 0.5, "wrap": kind == "PriorityStore" and rng.random() < 0.3}
 
 
 class Ledger:
@@ -126,8 +146,8 @@ class Ledger:
         self.viol = []
         self.level = init
         self.held = []           # accepted, not delivered -- items in acceptance order
-        self.delivered = set()   # uids
-        self.accepted = set()
+        self.delivered = collections.Counter()   # uid -> times handed to a getter
+        self.accepted = collections.Counter()    # uid -> times accepted
         self.pending = []        # shadow records of requests not yet granted / cancelled
         self.seq = 0
         self.keep = []
@@ -208,20 +228,21 @@ class Ledger:
             return
         if r["op"] == "put":
             it = r["item"]
-            if it.uid in self.accepted:
+            if r.get("was_accepted"):
                 self.bad("item-accepted-twice", "one put was accepted twice", repr(it))
-            self.accepted.add(it.uid)
+            r["was_accepted"] = True
+            self.accepted[U(it)] += 1           # (one object may legitimately be put, and accepted, several times)
             self.held.append(it)
             return
         got = r["ev"].value
         st["deliveries_checked"] += 1
-        if not isinstance(got, Item) or got.uid not in self.accepted:
+        if not is_item(got) or U(got) not in self.accepted:
             self.bad("invented-item", "a getter received something that was never accepted", repr(got))
             return
-        if got.uid in self.delivered:
+        if self.delivered[U(got)] >= self.accepted[U(got)]:
             self.bad("item-delivered-twice", "one item was handed to two getters (or twice)", repr(got))
             return
-        self.delivered.add(got.uid)
+        self.delivered[U(got)] += 1
         idx = next((i for i, h in enumerate(self.held) if h is got), None)
         if idx is None:
             self.bad("delivered-item-not-held", "a getter received an item that is not held", repr(got))
@@ -234,7 +255,7 @@ class Ledger:
             if self.kind == "Store" and idx != 0:
                 self.bad("not-fifo", "a Store delivered an item that is not the oldest held one",
                          {"got": repr(got), "oldest": repr(self.held[0])})
-            elif self.kind == "PriorityStore" and any(h < got for h in self.held):
+            elif self.kind == "PriorityStore" and any(LT(h, got) for h in self.held):
                 self.bad("not-min-first", "a PriorityStore delivered an item although a smaller one is held",
                          {"got": repr(got), "held": [repr(h) for h in self.held]})
             elif self.kind == "FilterStore":
@@ -280,6 +301,7 @@ class Ledger:
 def run_case(case, stats):
     K = kern.RealK.load()
     from onl.sim import Container, Store, PriorityStore, FilterStore, Interrupt
+    from onl.sim.resources.store import PriorityItem
     Env = kern.make_monenv(K.Environment)
     env = Env()
     kind = case["kind"]
@@ -302,6 +324,7 @@ def run_case(case, stats):
             return ("int", it.cause)
 
     def user(pid, its):
+        mine = []
         for it in its:
             yield from wait(env.timeout(it["delay"]))
             lg.sync("pre-op")
@@ -310,8 +333,18 @@ def run_case(case, stats):
                 if kind == "Container":
                     ev = res.put(it["amount"])
                 else:
-                    uid[0] += 1
-                    item = Item(it["key"], uid[0])
+                    if it.get("reput") and mine:
+                        item = mine[-1]            # the same object once more (a retransmitted packet, a shared token)
+                        stats["same_object_put_again"] += 1
+                    else:
+                        uid[0] += 1
+                        if case.get("wrap"):
+                            # the library's PriorityItem with an unorderable payload: ordered by priority alone
+                            item = PriorityItem(it["key"], {"uid": uid[0]})
+                            stats["priorityitem_puts"] += 1
+                        else:
+                            item = Item(it["key"], uid[0])
+                    mine.append(item)
                     ev = res.put(item)
             else:
                 if kind == "Container":
@@ -385,17 +418,19 @@ def run_case(case, stats):
     # at the end: every accepted item is delivered once or still held once
     if kind != "Container":
         for u in lg.accepted:
-            n = (u in lg.delivered) + sum(1 for h in res.items if h.uid == u)
-            if n != 1:
+            n = lg.delivered[u] + sum(1 for h in res.items if is_item(h) and U(h) == u)
+            if n != lg.accepted[u]:
                 lg.bad("item-lost-or-duplicated", "an accepted item is neither delivered exactly once nor still held exactly once",
-                       {"uid": u, "delivered": u in lg.delivered, "held": sum(1 for h in res.items if h.uid == u)})
+                       {"uid": u, "accepted": lg.accepted[u], "delivered": lg.delivered[u],
+                        "held": sum(1 for h in res.items if is_item(h) and U(h) == u)})
                 break
     return lg
 
 
 KEYS = ("grants", "advance_checks", "cancels_waiting", "head_cancelled_with_follower", "deliveries_checked",
         "equal_distinct_deliveries", "fcfs_checks", "level_checks", "mixed_syncs", "granted_after_waiting",
-        "advance_with_waiters", "cancel_noop_granted", "pokes", "filter_nomatch_waits", "prio_deliveries_from_4plus", "filter_later_getter_checks")
+        "advance_with_waiters", "cancel_noop_granted", "pokes", "filter_nomatch_waits", "prio_deliveries_from_4plus", "filter_later_getter_checks",
+        "same_object_put_again", "priorityitem_puts")
 
 
 def one_case(ctx, case):
